@@ -15,6 +15,12 @@ CHECKS = {
         "technique": SMT + "; symbolic polynomial coefficients and symbolic affine geometry",
         "design_ref": "DESIGN.md section 5 (C07)",
     },
+    "C05": {
+        "text": "Bounded symbolic check: one real time step (plus two-step sequences switching algorithm / step size) of each of the 7 schemes is executed on a real simulation with symbolic dt, alpha, beta, gamma (domains = the code's own asserts, recorded), symbolic previous state, symbolic element matrices, load and prescribed value; documented update relations, the discrete equation of motion on free dofs, evaluation points, K/C/M weights = derivatives of the evaluation-point states, the Newton-incremental path from an arbitrary iterate and energy conservation / decay are decided for all values (rational identities with tolerance 0; QF_NRA inequality for backward Euler).",
+        "note": "Trusted: Sym normal-form arithmetic (identities are closed by exact normalisation, counted separately from solver-searched obligations), z3 for the inequality, the ideal-solver stub standing for every linear-solver backend (det(A) != 0 recorded). Bound: 1 free dof with fully symbolic element matrices, 2-3 free dofs with concrete non-commuting matrices, sequences of 2 steps.",
+        "technique": SMT + "; rational identities in the scheme parameters",
+        "design_ref": "DESIGN.md section 5 (C05)",
+    },
 }
 
 NOT_APPLICABLE = {
